@@ -199,7 +199,9 @@ func (cr *checkRun) run(noSelftest bool) int {
 			cr.assumptions = append(cr.assumptions, fmt.Sprintf("trusted contract (body not verified): %s — %s", k, fc.Trusted))
 			continue
 		}
-		fr := cr.p.verifyFunc(fn, fc, cr.opts)
+		fopts := cr.opts
+		fopts.filter = plan.classFilter
+		fr := cr.p.verifyFunc(fn, fc, fopts)
 		if fr.Err != nil {
 			cr.outside = append(cr.outside, fmt.Sprintf("%s: %v", k, fr.Err))
 			// a function that was inside the subset on the unchanged tree and no longer is: undecided, reported
@@ -437,7 +439,69 @@ func (cr *checkRun) writeEvidence() {
 	os.WriteFile(filepath.Join(verifDir, "evidence", cr.prop+".json"), b, 0o644)
 }
 
-func (cr *checkRun) runSelftest() {}
+func (cr *checkRun) runSelftest() {
+	var sel []SelftestEntry
+	for _, e := range loadSelftests() {
+		if cr.tier == "thorough" || contains(e.Property, cr.prop) {
+			sel = append(sel, e)
+		}
+	}
+	if len(sel) == 0 {
+		cr.extra["mustfail"] = map[string]interface{}{"run": 0}
+		return
+	}
+	opts := cr.opts
+	opts.thorough = false
+	opts.timeout = 10 * 1e9
+	if cr.tier == "quick" {
+		// rotate the starting point with the seed and stop starting entries after the budget
+		if n := len(sel); n > 0 {
+			k := ((cr.seed % n) + n) % n
+			sel = append(append([]SelftestEntry(nil), sel[k:]...), sel[:k]...)
+		}
+		selftestDeadline = time.Now().Add(6 * time.Second)
+	}
+	res := runSelftests(sel, cr.p.repoDir, opts, 4)
+	mf := map[string]interface{}{}
+	run, rej, stale, skipped := 0, 0, 0, 0
+	var problems []string
+	mpRun, mpOK := 0, 0
+	for _, r := range res {
+		if strings.HasPrefix(r.Detail, "skipped") {
+			skipped++
+			continue
+		}
+		if r.Kind == "mustfail" {
+			run++
+			if r.OK {
+				rej++
+			} else if strings.HasPrefix(r.Detail, "stale") {
+				stale++
+			} else {
+				problems = append(problems, r.Name+": "+r.Detail)
+			}
+		} else {
+			mpRun++
+			if r.OK {
+				mpOK++
+			} else if strings.HasPrefix(r.Detail, "stale") {
+				stale++
+			} else {
+				problems = append(problems, r.Name+": "+r.Detail)
+			}
+		}
+	}
+	mf["run"] = run
+	mf["rejected"] = rej
+	mf["stale_on_this_tree"] = stale
+	mf["skipped_time_budget"] = skipped
+	mf["problems"] = problems
+	cr.extra["mustfail"] = mf
+	cr.extra["mustpass"] = map[string]interface{}{"run": mpRun, "accepted": mpOK}
+	for _, pr := range problems {
+		fmt.Printf("SELFTEST-PROBLEM property=%s %s\n", cr.prop, pr)
+	}
+}
 
 // ---- replay command ----
 
